@@ -47,6 +47,10 @@ REG = {
                 text="Generated (P, neutral N(P)) pairs must compare clean in both orders; exploration only.", note=_T1),
     "C14": dict(engine="progfuzz", technique="property-based testing (metamorphic: same command under 4 environments - ASLR on/off, MALLOC_PERTURB_, arena count, cwd - must give byte-identical output)",
                 text="Six abidw/abidiff/abipkgdiff commands per generated pair, each run under four environment perturbations; byte equality of stdout and equal status; exploration only (only the perturbations listed are provoked).", note=_T1),
+    "C17": dict(engine="progfuzz", technique="property-based testing (Hypothesis libraries mixing -g and non -g translation units; oracle A: expat+readelf accounting of declarations vs symbols; oracle B: exactly-once placement of removed interfaces in abidiff's sections)",
+                text="Generated C libraries with aliases, weak, hidden, static definitions and translation units without debug info; every exported interface must be attached to exactly one declaration or be a bare symbol, and each removed interface must show up exactly once in the right section; exploration only.", note=_T1),
+    "C22": dict(engine="progfuzz", technique="property-based testing (differential: report with an unsatisfiable generated suppression file vs report without)",
+                text="Generated pairs x suppression files whose every section is unsatisfiable by construction of the programs; output and status must equal the baseline; two recorded defects (bare symbols, drop path) are known findings recognised from the diff shape / by re-running without drop; exploration only.", note=_T1),
     "C18": dict(engine="progfuzz", technique="property-based testing (differential against readelf: multiset of symbol attributes and alias groups)",
                 text="Generated binaries (shared/PIE/exe/relocatable, bfd/lld, aliases, weak, IFUNC, TLS, common, versions, with/without -g); abidw's symbol tables must equal readelf's public defined function/data symbols attribute by attribute; exploration only.", note=_T1),
     "C19": dict(engine="progfuzz", technique="property-based testing (generated pairs of debug-info-less binaries; oracle: set difference of readelf symbol sets under the documented re-export rule)",
